@@ -467,7 +467,7 @@ def run_relay_check(work, prop, tier, replay=None):
         # lock-grain specification (RelayConc.tla): exhaustive TLC, witnesses of the listed findings forced on the real
         # handlers, generated and random schedules validated by RelayConcTrace
         import relayconc_check
-        rconc = relayconc_check.stage(work, tier, work.seed, variants=(False, True) if prop in ("C01", "C02") else (False,), witnesses=(prop == "C01"))
+        rconc = relayconc_check.stage(work, tier, work.seed, variants=(False, True, "odal") if prop in ("C01", "C02") else (False,), witnesses=(prop == "C01"))
         for f in rconc["fails"]:
             if prop not in relayconc_check.OWNER.get(f["inv"], []):
                 continue
